@@ -201,6 +201,31 @@ def run(tier, seed):
                         rep.violation("io.load_" + loader, tag, dict(detail, source=src, outcome=[cls, repr(val)[:300]]))
                 ev.case((loader, r["file"], delim), nontrivial=len(r["file"]) >= 2)
         ev.sample({"model_row": rows[777], "rendered": detail["text"][:200]})
+        # ---- pattern files: every file of the line machine MC_C20p, points written with distinct values
+        resp = tlc.run("MC_C20p", cfg="MC_C20p_T" if thorough else "MC_C20p", timeout=3000)
+        prow = resp["rows"]["ROW"]
+        if len(prow) * 2 != resp["distinct"]:
+            raise Machinery("MC_C20p: %d rows for %d states" % (len(prow), resp["distinct"]))
+        ev.tlc("MC_C20p", resp, "pattern-file line machine; invariant Grouping (machine = definitional grouping)")
+        for r in prow:
+            lines, val = [], {}
+            npat = nocc = 0
+            for pos, kind in enumerate(r["file"], 1):
+                if kind == "pattern":
+                    npat += 1; lines.append("pattern%d" % npat)
+                elif kind == "occurrence":
+                    nocc += 1; lines.append("occurrence%d" % nocc)
+                else:
+                    val[pos] = (float(pos) * 0.25 + 100.0, float(40 + pos))
+                    lines.append("%r, %r" % val[pos])
+            text = "\n".join(lines) + ("\n" if lines else "")
+            want = [[[val[p] for p in occ] for occ in pat] for pat in r["out"]]
+            for src, (cls, got, nw) in load_both(me, "patterns", text, "space", scratch):
+                n += 1
+                if cls != "ok" or got != want:
+                    rep.violation("io.load_patterns", "structure-differs", {"text": text, "line_kinds": r["file"], "source": src,
+                                                                           "expected": want, "outcome": [cls, repr(got)[:300]]})
+            ev.case(("patterns", r["file"]), nontrivial=len(r["out"]) >= 1)
         # ---- values written and read back: ragged time series, patterns, convention violations (warnings, not errors)
         for it in range(400 if thorough else 80):
             k = rng.randint(0, 5)
